@@ -80,6 +80,7 @@ def one_call(ctx: Ctx, cfg: dict) -> dict:
     dc.header_sign = cfg["dc_sign"]
     dc.domain, dc.forest = cfg["domain"], cfg["forest"]
     dc.isd_port = cfg["port"]
+    dc.alloc_hint = cfg.get("alloc", "padded")
     if cfg["towers"] >= 1:
         dc.epm_extra_towers = [refdc.tower_octets(refdc.tcp_tower(refdc.ISD_KEY, 2000 + k)) for k in range(cfg["towers"])]
     if cfg["towers"] == 2:
@@ -177,7 +178,8 @@ def configs(ctx: Ctx, n: int) -> list[dict]:
                     "policy": "later" if rng.random() < 0.4 else "requested", "l2_at_31": "absent" if rng.random() < 0.3 else "present",
                     "dc_sign": rng.random() < 0.7, "proto": "negotiate" if i % 5 == 0 else "ntlm", "sid": sid_with(1 + i % 15, rng),
                     "domain": "d" * (i % 9) + ".test", "forest": "f" * ((i // 9) % 9) + ".test", "port": rng.choice([49664, 1025, 65535]),
-                    "name_rk": rng.random() < 0.5, "towers": i % 3, "dns": i % 4 == 1, "dc_error": i % 17 == 5})
+                    "name_rk": rng.random() < 0.5, "towers": i % 3, "dns": i % 4 == 1, "dc_error": i % 17 == 5,
+                    "alloc": ("padded", "unpadded", "zero")[(i // 2) % 3]})
     return out
 
 
